@@ -101,7 +101,7 @@ def normalize_first(ctx, rule):
     return pl
 
 
-def sibling_agreement(ctx, rule_b, rule_c):
+def sibling_agreement(ctx, rule_b, rule_c, stages_too=True):
     pl = pipelines(ctx, rule_b)
     if "query" not in pl or "record" not in pl:
         return
@@ -138,6 +138,8 @@ def sibling_agreement(ctx, rule_b, rule_c):
                 ctx.fail(rule_c, key, b.where(), "%s tokeniser %ss on %s, expected %s" % (nm, stage, p, sorted(want)),
                          {"witness": "words keep / lose separator characters: 'a,b' stays one word or 'wi-fi' is "
                                      "never split"})
+    if not stages_too:
+        return
     # same stage multiset apart from `fin`
     nq = [s[0] for s in pl["query"][1] if s[0] != "fin"]
     nr = [s[0] for s in pl["record"][1]]
